@@ -107,9 +107,19 @@ func (x *Exec) oblige(st *State, kind, site, label string, tags []string, goal s
 	o.Trace = append([]string{}, st.trace...)
 	x.obls = append(x.obls, o)
 	if goal != "false" {
-		st.assume(goal) // (a goal that is literally false is a structural failure: the path goes on so later obligations stay meaningful)
+		// (a goal that is literally false is a structural failure: the path goes on so later obligations stay meaningful)
+		// A clause that belongs to other properties only is not part of this check's verdict, so it must not be assumed
+		// either: if it fails (raw SKI handed to the callback) it would hide what follows on the path from this
+		// property's own clauses (the connection looked up by the raw SKI). If it holds, not assuming it loses nothing.
+		if activeProp != "" && len(tags) > 0 && !hasTag(tags, activeProp) && !strings.HasPrefix(kind, "safety:") {
+			return
+		}
+		st.assume(goal)
 	}
 }
+
+// activeProp is the property the running check decides ("" outside `govc check`).
+var activeProp string
 
 func (x *Exec) oblName(kind, site, label string) string {
 	n := x.fnKeyShort() + "#" + kind
